@@ -6,6 +6,7 @@ import z3
 from .engine import Engine, Abort, Inconclusive, Unsupported, conc, model_value
 
 OBLIGATIONS = {}          # name -> callable(engine, **params) -> PathResult
+_ALREADY_FAILED = {}      # per worker process: obligation -> assertion names with a counterexample in hand
 
 
 def obligation(name):
@@ -72,11 +73,12 @@ def _explore_chunk(args):
             npaths += 1
             rec["prefix"] = list(e.trace)
             rec["info"] = res.info
-            names = [n for n in res.asserts if want is None or n.startswith(tuple(want))]
+            done = _ALREADY_FAILED.setdefault(name, set())
+            names = [n for n in res.asserts if (want is None or n.startswith(tuple(want))) and n not in done]
             terms = {n: _term(res.asserts[n]) for n in names}
             if terms:
                 allok = z3.And(*terms.values())
-                m = e.check_sat(z3.Not(allok))
+                m = e.check_cex(z3.Not(allok))
                 if m is not None:
                     for n in names:
                         t = z3.simplify(terms[n])
@@ -88,7 +90,7 @@ def _explore_chunk(args):
                             if z3.is_false(z3.simplify(kterm)):
                                 continue
                             # a violation that matches a known-finding signature is reported as such
-                            mk = e.check_sat(z3.Not(t), kterm)
+                            mk = e.check_cex(z3.Not(t), kterm)
                             if mk is not None:
                                 k = dict(assertion=n, kf=kid, prefix=list(e.trace))
                                 if res.world is not None:
@@ -99,7 +101,7 @@ def _explore_chunk(args):
                                         k["script_error"] = repr(ex2)
                                 rec.setdefault("known", []).append(k)
                             extra.append(z3.Not(kterm))
-                        m1 = e.check_sat(*extra)
+                        m1 = e.check_cex(*extra)
                         if m1 is not None:
                             m1 = nicer_model(e, extra, m1)
                             cex = dict(assertion=n, prefix=list(e.trace))
@@ -110,6 +112,7 @@ def _explore_chunk(args):
                                 except Exception as ex:     # noqa
                                     cex["script_error"] = repr(ex)
                             rec["failed"].append(cex)
+                            done.add(n)
             # witness for sampling / replay validation of passing paths
             if res.world is not None and not rec["failed"] and _want_witness(e.trace):
                 from .real import concretise_script
@@ -141,7 +144,7 @@ def nicer_model(e, extra, m):
     try:
         reals = set()
         for d in m.decls():
-            if d.arity() == 0 and d.range() == z3.RealSort():
+            if d.arity() == 0 and d.range() == z3.RealSort() and d.name() not in e.str_vars:
                 reals.add(d())
         if not reals:
             return m
